@@ -17,6 +17,8 @@ func main() {
 	switch os.Args[1] {
 	case "fn":
 		cmdFn(os.Args[2:])
+	case "check":
+		cmdCheck(os.Args[2:])
 	default:
 		fmt.Fprintln(os.Stderr, "unknown command")
 		os.Exit(2)
@@ -72,4 +74,52 @@ func cmdFn(args []string) {
 			}
 		}
 	}
+}
+
+func cmdCheck(args []string) {
+	fs := flag.NewFlagSet("check", flag.ExitOnError)
+	repo := fs.String("repo", "/repo", "")
+	verif := fs.String("verif", "/verif", "")
+	timeout := fs.Int("timeout", 0, "")
+	fs.Parse(args)
+	if fs.NArg() < 1 {
+		fmt.Fprintln(os.Stderr, "usage: govc check [-repo dir] <id> [quick|thorough]")
+		os.Exit(2)
+	}
+	id := fs.Arg(0)
+	tier := "quick"
+	if fs.NArg() > 1 {
+		tier = fs.Arg(1)
+	}
+	if t := os.Getenv("VERIF_TIER"); t != "" && fs.NArg() < 2 {
+		tier = t
+	}
+	seed := 1
+	if sd := os.Getenv("VERIF_SEED"); sd != "" {
+		fmt.Sscanf(sd, "%d", &seed)
+	}
+	specs, err := vc.LoadPropSpecs(*verif + "/spec/properties.json")
+	if err != nil {
+		fmt.Fprintln(os.Stderr, "error:", err)
+		os.Exit(2)
+	}
+	ps, ok := specs[id]
+	if !ok {
+		fmt.Fprintln(os.Stderr, "unknown property", id)
+		os.Exit(2)
+	}
+	s, err := vc.NewSession(*repo, *verif+"/spec", *verif+"/work/"+id)
+	if err != nil {
+		// the tree does not load (does not compile): nothing can be decided
+		fmt.Fprintln(os.Stderr, "error:", err)
+		os.Exit(2)
+	}
+	s.TimeoutS = 10
+	if tier == "thorough" {
+		s.TimeoutS = 60
+	}
+	if *timeout > 0 {
+		s.TimeoutS = *timeout
+	}
+	os.Exit(s.RunCheck(ps, vc.CheckOpts{VerifDir: *verif, Tier: tier, Seed: seed}))
 }
